@@ -310,8 +310,8 @@ func (lc *lockCase) settle(expectCas int) bool {
 			}
 		}
 		stable := casSeen() >= expectCas
+		var gs map[int64]goState
 		if stable {
-			var gs map[int64]goState
 			for _, w := range lc.workers {
 				if !w.running {
 					continue
@@ -331,6 +331,22 @@ func (lc *lockCase) settle(expectCas int) bool {
 				g := gs[w.gid]
 				parked := g.state == "select" && strings.Contains(g.stack, "lockInternal")
 				if !parked {
+					stable = false
+				}
+			}
+		}
+		if stable {
+			// a renewal goroutine (supportTimeout) that is not parked at a storage gate is still on its way
+			// (arming the next timer after its CAS came back): the state is not settled before it is done
+			if gs == nil {
+				gs = allGoroutines()
+			}
+			gated := map[int64]bool{}
+			for _, c := range lc.store.snapshot() {
+				gated[c.gid] = true
+			}
+			for id, g := range gs {
+				if strings.Contains(g.stack, ").supportTimeout") && !gated[id] {
 					stable = false
 				}
 			}
